@@ -386,4 +386,15 @@ def IndexInfo.encode (i : IndexInfo) : Bytes :=
   leBytes i.storeId 4 ++ leBytes i.count 4 ++ leBytes i.offset 4 ++ i.freeData ++ [UInt8.ofNat i.key] ++
   pstringEncode i.name
 
+/-- `DirectoryPack::get_index_from_name`: the index tails are read in table order until one carries
+    the name; a tail that does not read aborts the scan with its error -/
+def lookupIndexByName : List (Outcome IndexInfo) → Bytes → Outcome (Option IndexInfo)
+  | [], _ => .ok none
+  | (.ok i) :: rest, name => if i.name == name then .ok (some i) else lookupIndexByName rest name
+  | (.err k) :: _, _ => .err k
+  | (.panic s) :: _, _ => .panic s
+  | .hang :: _, _ => .hang
+  | .fault :: _, _ => .fault
+
+
 end Jubako
